@@ -396,7 +396,7 @@ def wl_band_complete(ctx, rng):
     cases.sort(key=lambda c: (c[1][0] * c[1][1], c))
     ctx.note('band_complete_grid', f'all n in [1..{nmax}]^2 x out = n + d, d in [0..{grow}]^2, both engines, both orders')
     if not ctx.quick:
-        extra = np.random.default_rng([ctx.seed, 99]).integers(10, 97, (24000, 2))
+        extra = np.random.default_rng([ctx.seed, 99]).integers(10, 97, (18000, 2))
         g2 = np.random.default_rng([ctx.seed, 98])          # the same list on every shard
         for (n0, n1) in extra:
             d0, d1 = (int(v) for v in g2.integers(0, 65, 2))
@@ -441,7 +441,7 @@ def wl_free_space(ctx, rng):
     from ..util import precision
     shapes = shapes_upto(ctx.pick(7, 16)) + [(1, 10), (11, 1), (16, 16), (12, 20), (21, 8), (2, 64), (96, 3)]
     if not ctx.quick:
-        shapes += [(int(a), int(b)) for a, b in np.random.default_rng([ctx.seed, 5]).integers(10, 129, (2500, 2))]
+        shapes += [(int(a), int(b)) for a, b in np.random.default_rng([ctx.seed, 5]).integers(10, 129, (1200, 2))]
     wvls = [0.3, 0.55, 0.6328, 1.55, 12.0]
     dxs = [1e-3, 0.01, 0.1, 1.0]
     zs = [0.0, 1e-9, -1e-9, 1.0, -1.0, 1e3, -1e3, 0.37, -25.0]
@@ -566,7 +566,7 @@ def wl_tf_reuse(ctx, rng):
     from ..util import precision
     shapes = shapes_upto(ctx.pick(5, 16)) + [(1, 10), (11, 1), (16, 16), (12, 20), (21, 8), (2, 64), (48, 3)]
     if not ctx.quick:
-        shapes += [(int(a), int(b)) for a, b in np.random.default_rng([ctx.seed, 6]).integers(9, 129, (2500, 2))]
+        shapes += [(int(a), int(b)) for a, b in np.random.default_rng([ctx.seed, 6]).integers(9, 129, (1800, 2))]
     wvls = [0.3, 0.55, 0.6328, 1.55, 12.0]
     dxs = [1e-3, 0.01, 0.1, 1.0]
     reps = ctx.pick(4, 12)
@@ -649,7 +649,7 @@ def wl_repeat_fields(ctx, rng):
     twice with the same Q / sample-count objects (tuple, list, float64 ndarray, numpy scalars)."""
     from prysm import propagation, fttools
     from ..util import precision
-    n_cases = ctx.share(ctx.pick(400, 200000))
+    n_cases = ctx.share(ctx.pick(400, 90000))
     Qs = [1, 2, 3, 1.5, 2.5, 1.25, 8]
     for i in range(n_cases):
         if i % 512 == 511:
@@ -772,7 +772,7 @@ def wl_band_history(ctx, rng):
     The later pair is judged by the isometry / left-inverse laws at the full float64 tolerance."""
     from prysm import fttools, propagation
     from prysm.conf import config
-    n_cases = ctx.share(ctx.pick(300, 160000))
+    n_cases = ctx.share(ctx.pick(300, 75000))
     for _ in range(n_cases):
         m, n = (int(v) for v in rng.integers(2, ctx.pick(9, 24), 2))
         if rng.random() < 0.4:
